@@ -498,6 +498,17 @@ sys.path.insert(0, sys.argv[1]); sys.path.insert(0, sys.argv[2])
 from vlib import gh
 from vlib.refs import DIALECTS, step_keywords, step_keyword_type
 sys.setswitchinterval(1e-6)
+import time, os
+LIB = os.path.join(os.path.realpath(sys.argv[1]), "gherkin") + os.sep
+def _local(frame, event, arg):
+    if event == "line":
+        time.sleep(0)          # give the other threads a chance after every line executed inside the library
+    return _local
+def _tracer(frame, event, arg):
+    if os.path.realpath(frame.f_code.co_filename).startswith(LIB):
+        return _local
+    return None
+threading.settrace(_tracer)
 bad = []
 names = sorted(DIALECTS)
 k0 = int(sys.argv[3])
@@ -518,7 +529,9 @@ for d in names[k0::4]:
     def work(i):
         barrier.wait()
         try:
-            r = gh.parse(text, d)   # the first use of this dialect in this process, by 8 threads at once
+            m = gh.TokenMatcher(d)   # the first use of this dialect in this process, by 8 threads at once (switching after every line)
+            sys.settrace(None)       # the rest of this thread's work runs untraced
+            r = gh.parse(text, d, matcher=m)
             out[i] = [s["keywordType"] for s in r[1]["feature"]["children"][0]["scenario"]["steps"]] if r[0] == "ok" else r[1][:1]
         except BaseException as e:
             out[i] = repr(e)
